@@ -354,8 +354,12 @@ class RequestHandler(BaseProtocol, Generic[_Request]):
         if self._keepalive_handle is not None:
             self._keepalive_handle.cancel()
 
+        # ceil_timeout() treats a non-positive delay as "no timeout"; for
+        # shutdown it means "do not wait": cancel the handler right away.
+        wait = timeout is None or timeout > 0
+
         # Wait for graceful handler completion
-        if self._request_in_progress:
+        if self._request_in_progress and wait:
             # The future is only created when we are shutting
             # down while the handler is still processing a request
             # to avoid creating a future for every request.
@@ -377,7 +381,11 @@ class RequestHandler(BaseProtocol, Generic[_Request]):
                 if self._current_request is not None:
                     self._current_request._cancel(asyncio.CancelledError())
 
-                if self._task_handler is not None and not self._task_handler.done():
+                if (
+                    wait
+                    and self._task_handler is not None
+                    and not self._task_handler.done()
+                ):
                     await asyncio.shield(self._task_handler)
         except (asyncio.CancelledError, asyncio.TimeoutError):
             if (
